@@ -533,6 +533,16 @@ template<> struct channel_multiplier_unsigned<uint16_t> {
     auto operator()(uint16_t a, uint16_t b) const -> uint16_t { return uint16_t((uint32_t(a) * uint32_t(b))/65535); }
 };
 
+/// \brief Specialization of channel_multiply for 32-bit unsigned channels
+/// (the generic implementation goes through double, which cannot hold the 64-bit product:
+/// multiplying by the maximum would not return the other operand)
+template<> struct channel_multiplier_unsigned<uint32_t> {
+    using first_argument_type = uint32_t;
+    using second_argument_type = uint32_t;
+    using result_type = uint32_t;
+    auto operator()(uint32_t a, uint32_t b) const -> uint32_t { return uint32_t((uint64_t(a) * uint64_t(b))/0xFFFFFFFFu); }
+};
+
 /// \brief Specialization of channel_multiply for float 0..1 channels
 template<> struct channel_multiplier_unsigned<float32_t> {
     using first_argument_type = float32_t;
